@@ -168,7 +168,7 @@ func callWrapsError(call *ssa.Call) bool {
 }
 
 func checkC05(c *Ctx, r *Report) {
-	r.Rules = []string{"D1+D5 plan decision table", "D6 Less ordering table", "K2 insert-after-collision-check", "K1 key=destination", "O5 parents-before-entry / sort-before-return", "T2 order-insensitive map iteration (files, glob)", "G-base the base of every relative-path computation is a whole directory", "G-prefix no bare string-prefix containment test on paths", "fixture"}
+	r.Rules = []string{"D1+D5 plan decision table", "D6 Less ordering table", "K2 insert-after-collision-check", "K1 key=destination", "O5 parents-before-entry / sort-before-return", "T2 order-insensitive map iteration (files, glob)", "G-base the base of every relative-path computation is a whole directory", "G-prefix no bare string-prefix containment test on paths", "G-cutset trim cutsets with path characters are single characters", "G-rooted absolute-path normalisers anchor at the root before cleaning", "fixture"}
 	r.Explanation = "Static decision of the structural necessary conditions of content planning: (D1+D5) files.PrepareForPackager is abstractly evaluated (finite-domain constant propagation over go/ssa, no execution) for every cell packager x entry-packager-tag x entry type, and the set of live plan mechanisms (skip / dir insert / single insert / tree walk / glob / invalid-type error) is compared with the table transcribed from the statement; (D6) Contents.Less is evaluated on all 27 orderings of (destination, type, packager) and must be the lexicographic order; (K2) every insert into the destination map is dominated by a lookup on the same map whose occupied edge can return the collision error; (O5) parents are added before each declared entry and the returned slice is sorted before every success return; (T2) every map range in files/glob is order-insensitive by an enumerated idiom; (G-base) every definition of the base argument of filepath.Rel in files and internal/glob is the entry's configured path or was cut at a separator by filepath.Dir after any string slicing, and (G-prefix) no strings.HasPrefix/TrimPrefix/CutPrefix in those packages takes a computed prefix that does not end in a separator by construction - a common string prefix is not a directory. Not decided: lexical cleaning, which directory is the deepest common one for a given match list, tree walking on disk."
 	r.Assumptions = []string{
 		"filepath.Clean/Join/Rel, fileglob and WalkDir behave as documented (path normalisation semantics are not analysed)",
@@ -772,10 +772,21 @@ func checkKeyForms(c *Ctx, r *Report, reach map[*ssa.Function]bool) {
 	for _, s := range sites {
 		covered := map[string]bool{}
 		var keys []ssa.Value
+		var rawSwitch []*ssa.Lookup
 		forEachInstr(s.fn, func(in ssa.Instruction) {
 			lk, ok := in.(*ssa.Lookup)
 			if !ok || !sameValue(lk.X, s.mu.Map) || !instrDominates(lk, s.mu) {
 				return
+			}
+			// a key obtained from the helper that switches between the two
+			// spellings covers the other kind only if the helper is given this
+			// entry's own normalised key: handed a raw destination it decides
+			// by the raw spelling (a trailing slash in the configuration)
+			if call, ok := lk.Index.(*ssa.Call); ok && len(formOf(lk.Index, s.fn)) > 1 && len(call.Call.Args) == 1 {
+				if len(formOf(call.Call.Args[0], s.fn)) == 0 {
+					rawSwitch = append(rawSwitch, lk)
+					return
+				}
 			}
 			for f := range formOf(lk.Index, s.fn) {
 				covered[f] = true
@@ -810,6 +821,10 @@ func checkKeyForms(c *Ctx, r *Report, reach map[*ssa.Function]bool) {
 		}
 		sort.Strings(missing)
 		construct := fmt.Sprintf("insert#%d in %s", s.ord, c.funcKey(s.fn))
+		if len(missing) > 0 && len(rawSwitch) > 0 {
+			r.Fail("K3", construct, c.instrPos(rawSwitch[0]), "the lookup of the other key spelling is computed from the raw destination, not from this entry's normalised key: for a destination spelled with a trailing slash it probes the entry's own key again and an occupant of the other kind goes unnoticed")
+			continue
+		}
 		r.Check(len(missing) == 0, "K3", construct, c.instrPos(s.mu),
 			fmt.Sprintf("entries are keyed under %d spellings (%s) but the collision lookups before this insert cover only {%s}: an occupant of the other kind at the same destination (a file where a directory is added, or a parent directory that is a file) is not detected", len(forms), joinSorted(forms), joinSorted(covered)))
 	}
